@@ -50,6 +50,8 @@ func main() {
 			debugAppends(w)
 		case "own":
 			debugOwnSites(w)
+		case "astfacts":
+			debugAstFacts(w, flag.Arg(0), flag.Arg(1))
 		}
 		return
 	}
